@@ -375,7 +375,7 @@ class TreeLikelihoodModel(CallableModel):
                 probs,
             )
 
-            if torch.any(torch.isinf(log_p)):
+            if torch.any(torch.isinf(log_p)) or self._underflow(frequencies, probs):
                 self.rescale = True
                 log_p = calculate_treelikelihood_discrete_safe(
                     self.partials,
@@ -408,7 +408,7 @@ class TreeLikelihoodModel(CallableModel):
                 probs,
             )
 
-            if torch.any(torch.isinf(log_p)):
+            if torch.any(torch.isinf(log_p)) or self._underflow(frequencies, probs):
                 self.rescale = True
                 log_p = calculate_treelikelihood_tip_states_discrete_rescaled(
                     self.partials,
@@ -419,6 +419,14 @@ class TreeLikelihoodModel(CallableModel):
                     probs,
                 )
         return log_p
+
+    def _underflow(self, frequencies, probs) -> bool:
+        """Check whether a site likelihood of the plain (not rescaled) pass is
+        zero, denormal or too close to the smallest normal number to be accurate."""
+        root_partials = self.partials[self.tree_model.postorder[-1][0]]
+        site_likelihoods = frequencies @ torch.sum(probs * root_partials, -3)
+        finfo = torch.finfo(site_likelihoods.dtype)
+        return bool(torch.any(site_likelihoods < finfo.tiny / finfo.eps**2))
 
     def handle_parameter_changed(self, variable, index, event):
         pass
